@@ -500,3 +500,42 @@ Definition x_makeString : msfacts := MkMs [GNullBegin; GNullEnd; GBeginGtEnd] tr
 (* std::vector<char> mem(numBytes + 1, 0); fread(mem.data(), 1, numBytes, file); parseXML(doc, mem.data())
    inside try; catch (const std::runtime_error &) rethrows; a file that cannot be opened throws *)
 Definition x_readXML : rxfacts := MkRx 1%N 0%N true true true true.
+
+(* ------------------------------------------------------------------------------------------------
+   Writer members and Node accessors (XML.cpp:24-44, 301-387): statement lists over an emit vocabulary *)
+Local Close Scope Z_scope.
+Inductive wassert := AXml | ANonEmpty | ATopPtr | ANoContent | AUnk.
+Inductive warg := GParam (x : string) | GTopType | GUnk.
+Inductive wstmt :=
+| WAssert (a : wassert)                   (* assert(...) *)
+| WTop                                    (* State *s = state.top(); *)
+| WNop                                    (* (void)s; *)
+| WPrintf (fmt : str) (args : list warg)  (* fprintf(xml, fmt, arg.c_str() ...) *)
+| WSpaces                                 (* spaces(); *)
+| WRepeatDepth (body : wstmt)             (* for (size_t i = 0; i < state.size(); i++) body *)
+| WPushNew (x : string)                   (* State *s = new State; s->type = x; state.push(s); *)
+| WIfHasContent (t e : wstmt)             (* if (s->hasContent) t else e *)
+| WPop                                    (* delete s; state.pop(); *)
+| WUnkS (what : string).
+Inductive nodefn :=
+| NHasFind                                (* return properties.find(k) != properties.end(); *)
+| NGetFindOrFallback                      (* it = properties.find(k); return it != end ? it->second : fallback; *)
+| NGetViaFallbackEmpty                    (* return getProp(k, std::string()); *)
+| NUnkN.
+(* the Writer constructor initialises xml and bin from its parameters, empty body; State::hasContent{false} *)
+Record wctor := MkWc { wc_inits_xml_bin : bool; wc_body_empty : bool; wc_hasContent_init_false : bool }.
+
+Definition x_w_spaces : list wstmt := [WRepeatDepth (WPrintf [32%N; 32%N] [])].
+Definition x_w_writeHeader : list wstmt :=
+  [WAssert AXml;
+   WPrintf [60;63;120;109;108;32;118;101;114;115;105;111;110;61;34;37;115;34;63;62;10]%N [GParam "version"]].
+Definition x_w_writeFooter : list wstmt := [WAssert AXml].
+Definition x_w_openNode : list wstmt :=
+  [WAssert AXml; WSpaces; WPrintf [60; 37; 115]%N [GParam "type"]; WPushNew "type"].
+Definition x_w_writeProperty : list wstmt :=
+  [WAssert AXml; WAssert ANonEmpty; WTop; WNop; WAssert ATopPtr; WAssert ANoContent;
+   WPrintf [32; 37; 115; 61; 34; 37; 115; 34]%N [GParam "name"; GParam "value"]].
+Definition x_w_closeNode : list wstmt :=
+  [WAssert AXml; WAssert ANonEmpty; WTop; WAssert ATopPtr;
+   WIfHasContent (WPrintf [60; 47; 37; 115; 62]%N [GTopType]) (WPrintf [47; 62; 10]%N []); WPop].
+Definition x_w_ctor : wctor := MkWc true true true.
